@@ -200,8 +200,8 @@ def run_shard(exe, stage, seed, tier, lo, n, outdir, tag, extra_args=(), timeout
     restarts = 0
     while cur < end:
         out = os.path.join(outdir, '%s.%d.jsonl' % (tag, cur))
-        cmd = [exe, '--seed', str(seed), '--from', str(cur), '--count', str(end - cur),
-               '--tier', tier, '--mode', stage.get('mode', ''), '--out', out] + list(extra_args)
+        cmd = list(stage.get('wrapper', [])) + [exe, '--seed', str(seed), '--from', str(cur), '--count', str(end - cur),
+               '--tier', tier, '--mode', stage.get('mode', ''), '--out', out] + list(stage.get('args', [])) + list(extra_args)
         t0 = time.time()
         try:
             p = subprocess.run(cmd, stdout=subprocess.PIPE, stderr=subprocess.PIPE, env=harness_env(),
@@ -257,8 +257,8 @@ def run_shard(exe, stage, seed, tier, lo, n, outdir, tag, extra_args=(), timeout
 def single_case(exe, stage, seed, tier, idx, outdir, timeout=60):
     """Re-run exactly one case verbosely; returns (rc, stdout(jsonl events), stderr)"""
     out = os.path.join(outdir, 'single.%d.jsonl' % idx)
-    cmd = [exe, '--seed', str(seed), '--from', str(idx), '--count', '1', '--tier', tier,
-           '--mode', stage.get('mode', ''), '--out', out, '--verbose']
+    cmd = list(stage.get('wrapper', [])) + [exe, '--seed', str(seed), '--from', str(idx), '--count', '1', '--tier', tier,
+           '--mode', stage.get('mode', ''), '--out', out, '--verbose'] + list(stage.get('args', []))
     try:
         p = subprocess.run(cmd, stdout=subprocess.PIPE, stderr=subprocess.PIPE, env=harness_env(), timeout=timeout)
         rc, err = p.returncode, p.stderr.decode('utf-8', 'replace')
@@ -292,6 +292,14 @@ def crash_signature(crash):
             kind = 'asan:' + m.group(1)
     elif 'ThreadSanitizer' in err:
         kind = 'tsan'
+    else:
+        vm = re.search(r'==\d+== (Conditional jump or move depends on uninitialised value|Use of uninitialised value of size \d+|Invalid (?:read|write) of size \d+|Syscall param .* uninitialised|Source and destination overlap)', err)
+        if vm:
+            kind = 'memcheck:' + re.sub(r'\s+of size \d+', '', vm.group(1)).replace(' ', '_')[:48]
+            for fm in re.finditer(r'==\d+==\s+(?:at|by) 0x[0-9A-Fa-f]+: (\S+) \((\S+?):(\d+)\)', err[vm.start():]):
+                if os.path.basename(fm.group(2)) in LIBFILES:
+                    return kind, fm.group(1)
+            return kind, '?'
     func = '?'
     for fm in re.finditer(r'#\d+ 0x[0-9a-f]+ in (\S+) ([^\s:]+):(\d+)', err):
         f, path = fm.group(1), fm.group(2)
